@@ -36,10 +36,10 @@ ASSUMPTIONS = ["model.close() is not a deletion in the sense of the statement",
                "an object 'no longer exists' when the reference definitions lost it (space deleted, member name no "
                "longer defined or derived in that space, ItemSpace discarded is only required when its parametrised "
                "space is gone or lost its formula)"]
-MIN_COUNTERS = {"quick": {"handle_pokes": 30000, "must_raise": 2500, "graph_scans": 1500, "queries_vs_fresh": 40000,
+MIN_COUNTERS = {"quick": {"handle_pokes": 30000, "must_raise": 2500, "graph_scans": 1200, "queries_vs_fresh": 30000,
                           "deletion_triggers": 1200},
-                "thorough": {"handle_pokes": 900000, "must_raise": 75000, "graph_scans": 45000,
-                             "queries_vs_fresh": 1200000, "deletion_triggers": 36000}}
+                "thorough": {"handle_pokes": 900000, "must_raise": 60000, "graph_scans": 30000,
+                             "queries_vs_fresh": 800000, "deletion_triggers": 30000}}
 SHARD_TIMEOUT = {"quick": 900, "thorough": 5400}
 
 DEL_KINDS = ["del_cells", "del_cells", "del_space", "del_ref", "del_model_ref", "remove_bases", "rename_cells",
